@@ -10,6 +10,7 @@ import (
 	_ "verif/harness/checks/netmap"
 	_ "verif/harness/checks/nns"
 	_ "verif/harness/checks/stores"
+	_ "verif/harness/checks/upgrade"
 	_ "verif/harness/checks/witness"
 	"verif/harness/runner"
 )
